@@ -81,8 +81,23 @@ MANIFEST = {
             "The routes of FileSystem._init_request_manager are GENERATED from its add_request calls (validator attributes resolved to the "
             "translated validators, lambdas / closures to the translated methods / handlers) and the model's step for delete / restore / "
             "create / access / pre_timestep / apply_timestep is proved to BE that composition (C15_gen_step_from_translated). "
-            "Still textual: the `_file_action` closure (dispatch into a file's own request manager), Folder._init_request_manager and the "
-            "nesting of the sub-managers (request-tree tables).",
+            "Second shift of round 7: the statement translator reads loops over list displays with starred elements / concatenated "
+            "dictionary views / list() / .copy() snapshots (order kept, snapshot vs live view distinguished) and expands private Folder "
+            "helpers `self._h(X)` in place, so a refactor of restore_file / _restoring_timestep is TRANSLATED and then either re-proved or "
+            "refuted: a counter-model search (Drivers/C15Xlate.lean, Model + Gen only, every folder over three file objects, "
+            "Inv-satisfying folders first) prints the folder on which a translated Folder method and the model differ; it proves nothing "
+            "and must find nothing when the theorems check. Callers OUTSIDE simulator/file_system are inventoried from every module of "
+            "src/primaite (Gen/FileSystemCallers.lean): nobody writes files / deleted_files / folders / deleted_folders / a route manager / "
+            "a deleted flag directly (C15_gen_callers_no_direct_dict_write), every method they call is a translated one "
+            "(C15_gen_callers_use_translated_methods), the only outside writers of the counters are the two ENCRYPT statements "
+            "(C15_gen_callers_counter_writers) — so Inv is preserved by them through the proved methods; rig family `callers` drives "
+            "exactly those callers on a real three-node network (DatabaseService backup / restore_backup / service fix, FTP store and "
+            "retrieve onto existing names, ransomware and data-manipulation attacks, C2 folder) interleaved with file requests, folder "
+            "restores and ticks and evaluates C15's oracle on every node after every step (no Lean model behind this family: an oracle "
+            "only). The `_file_action` closure is read structurally (lookup = the translated get_file on request[0], request[1]; "
+            "request[2:] handed to that file's manager) and the model's fsFileVerb step is proved to be that composition "
+            "(C15_gen_file_action). Still textual: the rows of the two request-tree tables (fsTree / folderTree: which key hangs under "
+            "which manager with which validator expression) and the item-verb registration of FileSystemItemABC (guard table).",
     "note": "C15-specific: health status, red-scan timers, sizes and file types are not modelled (no influence on structure "
             "or response status); no request "
             "path raises (after repair F-C05-2 a handler that lacks an option is answered `failure`: C15_no_request_raises, "
@@ -363,7 +378,6 @@ def run(ctx: Ctx):
     cbad = 0
     for (name, case), (trace, viol) in zip(ccases, cres):
         ctx.cov["traces_validated_against_impl"] += 1
-        namesake = any("namesake" in t for t in trace)
         ctx.case(case, any(o[0] in ("db_restore", "db_fix", "ftp_send", "ransom", "data_manip") for o in case["ops"]))
         ctx.count("surface:callers")
         for o, t in zip(case["ops"], trace[-len(case["ops"]):] if case["ops"] else []):
